@@ -63,6 +63,14 @@ def _slim_grid(tier):
                 if int(np.prod(sp)) > 24 and variant > 0 and tier == 'quick':
                     continue
                 out.append({'space': sp, 'cyclic': cyclic, 'single': single, 'two': two})
+    # the same elementary transition listed more than once (independent mechanisms with their own rates): the terms must add up
+    for cyclic in (False, True):
+        out.append({'space': [2, 3], 'cyclic': cyclic, 'single': [[[0, 1], [0, 1]], [[1, 2], [2, 0], [1, 2]]],
+                    'two': [[[0, 1, 1, 0], [0, 1, 1, 0]]] + ([[[2, 1, 1, 0]]] if cyclic else [])})
+        out.append({'space': [3, 2, 2], 'cyclic': cyclic, 'single': [[[2, 0], [0, 2], [2, 0]], [], [[1, 0], [1, 0]]],
+                    'two': [[[1, 2, 0, 1]], [[0, 1, 0, 1], [1, 0, 1, 0], [0, 1, 0, 1]]] + ([[[1, 1, 2, 0], [1, 1, 2, 0]]] if cyclic else [])})
+    # a null reaction (reactant == product) contributes nothing
+    out.append({'space': [2, 2], 'cyclic': False, 'single': [[[0, 1], [0, 0]], [[1, 1]]], 'two': [[[0, 0, 1, 1], [1, 0, 0, 1]]]})
     return out
 
 
@@ -154,6 +162,8 @@ def _hom_grid(tier):
                 single = [list(ps[(variant + j) % len(ps)]) for j in range(1 + variant)]
                 two = [list(pt[(3 * variant + 5 * j + 1) % len(pt)]) for j in range(2 - variant)]
                 out.append({'n': n, 'd': d, 'cyclic': cyclic, 'single': single, 'two': two})
+    for cyclic in (False, True):
+        out.append({'n': 3, 'd': 3, 'cyclic': cyclic, 'single': [[0, 1], [1, 2], [0, 1]], 'two': [[1, 0, 0, 1], [1, 0, 0, 1]]})
     return out
 
 
